@@ -9,7 +9,7 @@ Contract modelled (what rxsci's wrappers rely on):
 * the stub records constructor arguments, every call and its argument, in order.
 
 Stream format of the stub: header (b'\\x1f\\x8b' when gzip framing was requested with wbits = MAX_WBITS | 16, b'\\x78\\x9c' for plain zlib, b'\\x28\\xb5' for zstd),
-then for every payload byte the two bytes [1, byte], then the trailer byte [0].
+then for every payload byte the two bytes [1, byte] - or, for a run, the token [2, c2, c1, c0, byte] standing for c2*65536 + c1*256 + c0 copies of byte (compressible data: a few stream bytes expand to megabytes) - then the trailer byte [0].
 ``validate()`` checks the same contract clauses on the real zlib / zstandard."""
 
 
@@ -91,21 +91,43 @@ class _Decomp(object):
         self.eof = False
         self.unused_data = b''
         self.unconsumed_tail = b''
+        self.run_left = 0
+        self.run_byte = 0
+        self.cnt = []
 
     def __getattr__(self, name):
         unmodelled_attr('decompression object .', name)
 
     def decompress(self, data, max_length=0):
-        """zlib's optional max_length: at most that many output bytes are returned, the input not yet consumed is kept in unconsumed_tail"""
+        """zlib's optional max_length: at most that many output bytes are returned; input not yet consumed is kept in unconsumed_tail, output of a run that
+        did not fit stays pending inside the object and comes out of the next call (which is how zlib behaves in the middle of a long match)"""
         self.rec.calls.append(('decompress', data))
         if self.eof and not self.reusable_after_eof:
             raise CodecError('cannot use a decompressobj multiple times')
-        out = []
+        if max_length and not self.reusable_after_eof:
+            unmodelled('zstandard decompressobj.decompress(max_length)')
+        parts = []
+        cur = []
+        produced = 0
         self.unconsumed_tail = b''
-        for pos, b in enumerate(data):
-            if max_length and len(out) >= max_length:
-                self.unconsumed_tail = bytes(data[pos:])
+        pos = 0
+        n = len(data)
+        while True:
+            if self.run_left:
+                room = self.run_left if not max_length else min(self.run_left, max_length - produced)
+                if room > 0:
+                    if cur:
+                        parts.append(bytes(cur))
+                        cur = []
+                    parts.append(bytes([self.run_byte]) * room)
+                    produced += room
+                    self.run_left -= room
+                if self.run_left:
+                    break
+            if pos >= n or (max_length and produced >= max_length):
                 break
+            b = data[pos]
+            pos += 1
             if self.state == 'head':
                 if b != self.header[self.pos]:
                     raise ValueError('bad header')
@@ -118,14 +140,33 @@ class _Decomp(object):
                     self.eof = True
                 elif b == 1:
                     self.state = 'byte'
+                elif b == 2:
+                    self.state = 'cnt'
+                    self.cnt = []
                 else:
                     raise ValueError('corrupt stream')
             elif self.state == 'byte':
-                out.append(b)
+                cur.append(b)
+                produced += 1
+                self.state = 'marker'
+            elif self.state == 'cnt':
+                self.cnt.append(b)
+                if len(self.cnt) == 3:
+                    self.state = 'rbyte'
+            elif self.state == 'rbyte':
+                self.run_left = self.cnt[0] * 65536 + self.cnt[1] * 256 + self.cnt[2]
+                self.run_byte = b
                 self.state = 'marker'
             else:
                 self.unused_data += bytes([b])
-        return bytes(out)
+        if pos < n:
+            self.unconsumed_tail = bytes(data[pos:])
+        if cur:
+            parts.append(bytes(cur))
+        res = b''
+        for part in parts:
+            res = res + part
+        return res
 
     def flush(self):
         self.rec.calls.append(('dflush',))
@@ -230,6 +271,17 @@ class FakeZstd(object):
         self.ZstdDecompressor = ZstdDecompressor
 
 
+def stream_runs(header, runs):
+    """runs: list of (count, byte); count 1 is written as a single, larger counts as a run token"""
+    enc = []
+    for count, b in runs:
+        if count == 1:
+            enc += [1, b]
+        else:
+            enc += [2, count // 65536, (count // 256) % 256, count % 256, b]
+    return header + bytes(enc) + b'\x00'
+
+
 def stream(header, payload):
     enc = []
     for b in payload:
@@ -293,4 +345,29 @@ def validate():
                 d.decompress(whole[:t])
                 if d.eof:
                     return '%s: eof true on truncated stream (%d of %d)' % (name, t, len(whole))
+    # zlib's max_length on compressible data: calling decompress(unconsumed_tail, M) until eof delivers the payload in pieces of at most M bytes
+    # (the wrappers under test do not use max_length today; a change that starts to must follow this protocol)
+    big = b'A' * (3 * 1024 * 1024 + 5) + b'z'
+    c = zlib.compressobj(wbits=zlib.MAX_WBITS | 16)
+    real_stream = c.compress(big) + c.flush()
+    fake_stream = stream_runs(GZIP, [(3 * 1024 * 1024 + 5, 65), (1, 122)])
+    for M in (1024 * 1024, 4096):
+        for name in ('zlib', 'stub'):
+            d = zlib.decompressobj(wbits=zlib.MAX_WBITS | 16) if name == 'zlib' else FakeZlib(Recorder()).decompressobj(wbits=FakeZlib.MAX_WBITS | 16)
+            data = real_stream if name == 'zlib' else fake_stream
+            got = []
+            calls = 0
+            while not d.eof and calls < 5000:
+                piece = d.decompress(data, M)
+                calls += 1
+                if len(piece) > M:
+                    return '%s: max_length exceeded' % name
+                got.append(piece)
+                data = d.unconsumed_tail
+            if not d.eof or b''.join(got) != big:
+                return '%s: drain protocol with max_length=%d does not deliver the payload' % (name, M)
+            # without the limit one call delivers everything
+            d = zlib.decompressobj(wbits=zlib.MAX_WBITS | 16) if name == 'zlib' else FakeZlib(Recorder()).decompressobj(wbits=FakeZlib.MAX_WBITS | 16)
+            if d.decompress(real_stream if name == 'zlib' else fake_stream) != big or not d.eof:
+                return '%s: unlimited decompress' % name
     return None
